@@ -171,17 +171,21 @@ def mkCand (s : State) (protoIds : List Nat) : E (State × Feat) := do
   let parent ← setParents s.parent c ps
   pure ({ s with nextId := s.nextId + 1, parent := parent }, c)
 
+/-- `wrap_point = max(location.parts[0].end …) if any(loc.crosses_origin() …) else None` of `Region.__init__` -/
+def regionWrap (locations : List Loc) : E (Option Int) :=
+  if locations.any bridgesOrigin then do
+    let ends ← locations.mapM fun (l : Loc) => match l.parts with
+      | p :: _ => pure p.hi
+      | [] => throw "IndexError"
+    pure (some (maxList ends))
+  else pure none
+
 /-- `Region(candidate_clusters, subregions)` -/
 def mkRegion (s : State) (cands subs : List Feat) : E (State × Feat) := do
   if cands.isEmpty && subs.isEmpty then throw "value-error"
   let children := subs ++ cands
   let locations := children.map (·.loc)
-  let wrap ← if locations.any bridgesOrigin then do
-      let ends ← locations.mapM fun (l : Loc) => match l.parts with
-        | p :: _ => pure p.hi
-        | [] => throw "IndexError"
-      pure (some (maxList ends))
-    else pure none
+  let wrap ← regionWrap locations
   let loc ← connect locations wrap
   collectionInitCheck loc
   let r : Feat := { id := s.nextRid, kind := .region, loc := loc, kids := cands.map (·.id), subs := subs.map (·.id) }
